@@ -1,9 +1,9 @@
 package c03
 
 import (
-	"crypto/sha256"
 	"bytes"
 	"crypto/ed25519"
+	"crypto/sha256"
 	"crypto/x509"
 	"fmt"
 	"sort"
